@@ -147,7 +147,7 @@ func (fv *FuncVC) native(v ssa.Value, f *ssa.Function, cc *ssa.CallCommon, args 
 			fv.setResult(v, nil)
 			return true
 		}
-		trust("sync.Pool " + g.Name() + " holds only non-nil " + tn + " values and hands each to one owner at a time (its New function and every Put are checked to supply that type)")
+		trust("sync.Pool " + g.Name() + " holds only non-nil " + tn + " values " + pred + " and hands each to one owner at a time (every Put is checked to supply that)")
 		okey := "owned." + structName(gt.(*types.Pointer).Elem())
 		h := fv.heapTerm(fv.cur, okey, SBool)
 		if strings.HasSuffix(name, "Get") {
@@ -160,11 +160,17 @@ func (fv *FuncVC) native(v ssa.Value, f *ssa.Function, cc *ssa.CallCommon, args 
 			// exclusive: nobody owned it while it sat in the pool
 			fv.assume(smtNot(app("select", h.S, r.S)))
 			fv.cur.heap[okey] = Term{S: app("store", h.S, r.S, "true"), Sort: SBool}
+			if sf := fv.P.CS.Specs[pred]; sf != nil {
+				fv.assume(env.specCall(sf, []Term{r}).S)
+			}
 			fv.setResult(v, []Val{{T: Term{S: fmt.Sprintf("(mk_Iface %d %s)", fv.tagOf(gt), r.S), Sort: SIface, Go: rts[0]}}})
 			return true
 		}
 		x := fv.asTerm(args[1], ats[1])
 		fv.oblige("pool", "put-type", nil, pos, smtAnd(app("=", app("Iface_tag", x.S), fmt.Sprint(fv.tagOf(gt))), smtNot(app("=", app("Iface_ref", x.S), "0"))), "only non-nil "+tn+" values are put into "+g.Name())
+		if sf := fv.P.CS.Specs[pred]; sf != nil {
+			fv.oblige("pool", "put-pred", nil, pos, env.specCall(sf, []Term{{S: app("Iface_ref", x.S), Sort: SRef, Go: gt}}).S, "every value put into "+g.Name()+" satisfies "+pred)
+		}
 		if fv.C != nil && fv.C.Flags["ownership"] != "" {
 			fv.oblige("owned", "put", nil, pos, app("select", h.S, app("Iface_ref", x.S)), "the object returned to the pool is owned by the caller")
 		}
